@@ -48,9 +48,14 @@ struct Event {
   char b[48];
 };
 static const int MAXEV = 400;
+static const int MAXREC = 12;
 struct Shared {
   volatile int nev;
   Event ev[MAXEV];
+  // recovery dumps after a crash (taken by one fresh manager in one child)
+  volatile int rec_done;      // dumps completed
+  char rec_diff[MAXREC][32];  // rotation difference class after each of them ("" = equal)
+  char rec_text[MAXREC][420]; // directory and model after each of them
 };
 static Shared *g_sh = nullptr;
 static volatile int g_armed = 0;
@@ -329,6 +334,12 @@ struct FileInfo {
   Status status = MISSING;
   long id = -1; // payload id if a header could be read
   long size = -1;
+  uint64_t hash = 0; // of the bytes, for files that are not complete dumps
+  /// what the reference model tracks: the payload id of a complete dump, or a negative
+  /// pseudo id for an incomplete file (the manager cannot tell, it rotates it like a dump)
+  long entry() const {
+    return status == COMPLETE ? id : -(long)(1000 + hash % 1000000000000ull);
+  }
 };
 /// read a payload through the real RestartReader (the reader has no error
 /// reporting, so the size is checked first)
@@ -375,7 +386,10 @@ static FileInfo read_payload(const std::string &path) {
   if (stat(path.c_str(), &st) != 0)
     return FileInfo();
   RestartReader r(path);
-  return read_payload_reader(r, (long)st.st_size);
+  FileInfo f = read_payload_reader(r, (long)st.st_size);
+  if (f.status != COMPLETE)
+    f.hash = fnv1a(read_file(path));
+  return f;
 }
 
 typedef std::map< std::string, FileInfo > Listing;
@@ -484,7 +498,8 @@ struct Model {
   std::string str() const {
     std::string s = "{";
     for (auto &kv : expected())
-      s += (s.size() > 1 ? ", " : "") + kv.first + fmt("=#%ld", kv.second);
+      s += (s.size() > 1 ? ", " : "") + kv.first +
+           (kv.second >= 0 ? fmt("=#%ld", kv.second) : std::string("=<incomplete file>"));
     return s + "}";
   }
 };
@@ -492,18 +507,17 @@ struct Model {
 static std::string rotation_difference(const Listing &l, const Model &m) {
   auto exp = m.expected();
   auto it = l.find("restart.dump");
-  if (m.has_cur && (it == l.end() || it->second.status != COMPLETE || it->second.id != m.cur))
+  if (m.has_cur && (it == l.end() || it->second.entry() != m.cur))
     return "dump-not-newest";
   std::set< long > on_disk;
   for (auto &kv : l)
-    if (kv.second.status == COMPLETE)
-      on_disk.insert(kv.second.id);
+    on_disk.insert(kv.second.entry());
   for (auto &kv : exp)
     if (!on_disk.count(kv.second))
       return "previous-dump-lost";
   for (auto &kv : exp) {
     auto f = l.find(kv.first);
-    if (f == l.end() || f->second.status != COMPLETE || f->second.id != kv.second)
+    if (f == l.end() || f->second.entry() != kv.second)
       return "backup-misplaced";
   }
   for (auto &kv : l)
@@ -610,6 +624,86 @@ static ChildResult run_child(RestartManager *mgr, int B, long id, int crash_ev, 
   return r;
 }
 
+/// the reference model of a directory as a crash left it: what is in restart.dump, and the
+/// backups that exist, newest first (holes closed); an incomplete file is an entry like any other
+static Model model_of_directory(const Listing &l, int B) {
+  Model m;
+  m.B = B;
+  auto it = l.find("restart.dump");
+  if (it != l.end()) {
+    m.has_cur = true;
+    m.cur = it->second.entry();
+  }
+  for (int i = 0; i < B; ++i) {
+    auto f = l.find(fmt("restart.%d.back", i));
+    if (f != l.end())
+      m.back.push_back(f->second.entry());
+  }
+  return m;
+}
+struct RecoveryResult {
+  ChildResult child;
+  int done = 0;
+  std::vector< std::string > diff, text;
+};
+/// a new process (fresh manager) takes n dumps in the current directory; after each of them the
+/// child itself compares the directory with the model continued from `start`
+static RecoveryResult run_recovery(int B, long first_id, int n, Model start) {
+  g_sh->nev = 0;
+  g_sh->rec_done = 0;
+  fflush(stdout);
+  fflush(stderr);
+  pid_t pid = fork();
+  if (pid < 0) {
+    perror("fork");
+    exit(5);
+  }
+  if (pid == 0) {
+    struct rlimit rl = {0, 0};
+    setrlimit(RLIMIT_CORE, &rl);
+    int fd = open(g_errfile.c_str(), O_WRONLY | O_CREAT | O_TRUNC, 0600);
+    if (fd >= 0) {
+      dup2(fd, 2);
+      close(fd);
+    }
+    RestartManager *m = new_manager(B);
+    g_crash_ev = -1;
+    for (int k = 0; k < n; ++k) {
+      g_sh->nev = 0; // keep the trace of the dump in progress only
+      g_nfd = 0;
+      g_armed = 1;
+      do_dump(*m, first_id + k, B);
+      g_armed = 0;
+      start.dump(first_id + k);
+      const Listing l = list_dir();
+      const std::string d = rotation_difference(l, start);
+      snprintf(g_sh->rec_diff[k], sizeof(g_sh->rec_diff[k]), "%s", d.c_str());
+      snprintf(g_sh->rec_text[k], sizeof(g_sh->rec_text[k]), "directory %s, model %s",
+               listing_str(l).c_str(), start.str().c_str());
+      g_sh->rec_done = k + 1;
+    }
+    _exit(0);
+  }
+  int st = 0;
+  while (waitpid(pid, &st, 0) < 0 && errno == EINTR) {
+  }
+  RecoveryResult r;
+  if (WIFEXITED(st)) {
+    r.child.exited = true;
+    r.child.code = WEXITSTATUS(st);
+  } else if (WIFSIGNALED(st))
+    r.child.sig = WTERMSIG(st);
+  for (int i = 0; i < g_sh->nev && i < MAXEV; ++i)
+    r.child.events.push_back(g_sh->ev[i]);
+  r.child.err = read_file(g_errfile);
+  r.done = g_sh->rec_done;
+  for (int k = 0; k < r.done; ++k) {
+    r.diff.push_back(g_sh->rec_diff[k]);
+    r.text.push_back(g_sh->rec_text[k]);
+  }
+  return r;
+}
+
 static std::string event_class(const Event &e) {
   switch (e.kind) {
   case 'R':
@@ -659,6 +753,19 @@ static std::string trace_str(const std::vector< Event > &ev) {
   return s;
 }
 static bool is_fs(const Event &e) { return strchr("ROWCU", e.kind) != nullptr; }
+/// class of a dump that did not complete (from the child's status and the last traced operation)
+static std::string failure_cause(const ChildResult &t) {
+  std::string cause = t.exited ? fmt("exit-%d", t.code) : fmt("signal-%d", t.sig);
+  if (!t.events.empty()) {
+    const Event &last = t.events.back();
+    if (is_fs(last) && last.ret == -1)
+      cause = event_class(last) + fmt("-failed-errno-%d", last.err) + (t.sig == SIGABRT ? "-abort" : "");
+    else if (t.sig == SIGABRT)
+      cause = "abort-after-" + event_class(last);
+  } else if (t.sig == SIGABRT)
+    cause = "abort-before-any-operation";
+  return cause;
+}
 
 // ---------------------------------------------------------------------------
 // per-B worker
@@ -667,12 +774,13 @@ struct Bounds {
   int A;  // dumps before the first process restart
   int Bb; // dumps after the first restart: min(B + extra, cap)
   int Cc; // dumps after the second restart
-  bool recovery;
+  int recovery; // dumps a fresh manager takes in the directory every crash leaves behind
 };
 struct Worker {
   int B;
   Bounds bd;
   Result *R;
+  uint64_t recov_dumps = 0;
   uint64_t edges = 0, crash_runs = 0, crash_nontrivial = 0, rot_checks = 0, recov_runs = 0,
            fs_events = 0, blocked = 0, lost_B0 = 0, rebuild_checks = 0, histories = 0,
            reader_checks = 0;
@@ -837,26 +945,48 @@ struct Worker {
           }
         } else if (s.model.has_cur && !prev_ok)
           ++lost_B0;
-        // 4. a new process must be able to dump into what the crash left behind
-        if (bd.recovery) {
+        // 4. a new process (fresh manager) must be able to keep dumping into what the crash left
+        //    behind, and the rotation must hold again starting from that directory
+        if (bd.recovery > 0) {
           const long rid = id + 1000;
-          ChildResult rc = run_child(nullptr, B, rid, -1, 0, true);
+          const std::string crashed_after = var ? "torn-write" : last_fs;
+          const Model start = model_of_directory(l, B);
+          RecoveryResult rr = run_recovery(B, rid, bd.recovery, start);
           ++recov_runs;
-          ++R->evaluations;
-          bool ok = rc.exited && rc.code == 0;
-          FileInfo fi;
-          if (ok)
-            fi = read_payload(g_dir + "/restart.dump");
-          if (!ok || fi.status != COMPLETE || fi.id != rid) {
-            std::string msg = rc.err;
+          recov_dumps += rr.done;
+          R->evaluations += 1 + rr.done;
+          if (verbose)
+            printf("    recovery by a new manager: %d of %d dumps completed, %s\n", rr.done, bd.recovery,
+                   rr.child.outcome().c_str());
+          for (int k = 0; k < rr.done; ++k) {
+            if (verbose)
+              printf("      after recovery dump %d: %s %s\n", k + 1, rr.text[k].c_str(),
+                     rr.diff[k].empty() ? "(equal)" : rr.diff[k].c_str());
+            if (!rr.diff[k].empty()) {
+              R->violation(fmt("C14:rotation:after-crash-restart:%s:crashed-after-%s", rr.diff[k].c_str(),
+                               crashed_after.c_str()),
+                           fmt("B=%d, history %s, process killed at operation %d (%s) of dump #%ld leaving %s; "
+                               "a new manager then dumps #%ld..: after its dump %d: %s",
+                               B, hist.c_str(), j, where.c_str(), id, listing_str(l).c_str(), rid, k + 1,
+                               rr.text[k].c_str()),
+                           replay_json(hist, j, var));
+              break; // later differences are consequences
+            }
+          }
+          if (!(rr.child.exited && rr.child.code == 0)) {
+            std::string msg = rr.child.err;
             for (char &ch : msg)
               if (ch == '\n')
                 ch = ' ';
-            R->violation("C14:recovery-dump-fails:after-crash-" + where,
-                         fmt("B=%d, history %s, crash at operation %d of dump #%ld, then a new manager "
-                             "dumps #%ld: %s, restart.dump %s id %ld; operations %s; stderr %.200s",
-                             B, hist.c_str(), j, id, rid, rc.outcome().c_str(),
-                             status_name(fi.status), fi.id, trace_str(rc.events).c_str(), msg.c_str()),
+            R->violation(fmt("C14:dump-fails:after-crash-restart:%s:crashed-after-%s:recovery-dump-%d",
+                             failure_cause(rr.child).c_str(), crashed_after.c_str(), rr.done + 1),
+                         fmt("B=%d, history %s, process killed at operation %d (%s) of dump #%ld leaving %s; a "
+                             "new manager then takes dumps #%ld..: its dump %d does not complete: %s; operations "
+                             "of that dump: %s; %s; stderr: %.300s",
+                             B, hist.c_str(), j, where.c_str(), id, listing_str(l).c_str(), rid, rr.done + 1,
+                             rr.child.outcome().c_str(), trace_str(rr.child.events).c_str(),
+                             rr.done ? ("after the previous one: " + rr.text[rr.done - 1]).c_str() : "",
+                             msg.c_str()),
                          replay_json(hist, j, var));
           }
         }
@@ -903,7 +1033,9 @@ static Bounds bounds_for(const Args &A, int B) {
     b.Bb = std::min(B + 2, 5);
     b.Cc = 1;
   }
-  b.recovery = true;
+  b.recovery = A.thorough() ? std::min(MAXREC, std::max(3, B + 2)) : 3;
+  if (A.kv.count("recovery-dumps"))
+    b.recovery = std::min(MAXREC, (int)A.geti("recovery-dumps", 3));
   return b;
 }
 
@@ -924,10 +1056,10 @@ static void setup_worker_dirs(const std::string &tmp, int B) {
 static void write_worker_result(const std::string &file, Worker &w, Result &R) {
   FILE *f = fopen(file.c_str(), "w");
   fprintf(f, "C\t%" PRIu64 "\t%" PRIu64 "\t%" PRIu64 "\t%" PRIu64 "\t%" PRIu64 "\t%" PRIu64
-             "\t%" PRIu64 "\t%" PRIu64 "\t%" PRIu64 "\t%" PRIu64 "\t%" PRIu64 "\t%" PRIu64 "\t%" PRIu64 "\n",
+             "\t%" PRIu64 "\t%" PRIu64 "\t%" PRIu64 "\t%" PRIu64 "\t%" PRIu64 "\t%" PRIu64 "\t%" PRIu64 "\t%" PRIu64 "\n",
           R.evaluations, w.edges, w.crash_runs, w.crash_nontrivial, w.rot_checks, w.recov_runs,
           w.fs_events, w.blocked, w.lost_B0, w.rebuild_checks, w.histories, R.violation_count,
-          w.reader_checks);
+          w.reader_checks, w.recov_dumps);
   for (uint64_t h : R.distinct)
     fprintf(f, "H\t%" PRIu64 "\n", h);
   for (auto &s : R.samples)
@@ -1019,7 +1151,7 @@ int main(int argc, char **argv) {
     while (waitpid(p, &st, 0) < 0 && errno == EINTR) {
     }
   }
-  uint64_t tot[13] = {0};
+  uint64_t tot[14] = {0};
   std::string perB = "{";
   for (int B : Bs) {
     const std::string txt = read_file(tmp + fmt("/c14_B%d.res", B));
@@ -1036,7 +1168,7 @@ int main(int argc, char **argv) {
         continue;
       std::vector< std::string > f;
       size_t p = 2;
-      const int nf = line[0] == 'V' ? 3 : (line[0] == 'C' ? 13 : 1);
+      const int nf = line[0] == 'V' ? 3 : (line[0] == 'C' ? 14 : 1);
       for (int k = 0; k < nf - 1; ++k) {
         size_t q = line.find('\t', p);
         if (q == std::string::npos)
@@ -1047,10 +1179,10 @@ int main(int argc, char **argv) {
       f.push_back(line.substr(p));
       switch (line[0]) {
       case 'C': {
-        uint64_t v[13] = {0};
-        for (size_t k = 0; k < f.size() && k < 13; ++k)
+        uint64_t v[14] = {0};
+        for (size_t k = 0; k < f.size() && k < 14; ++k)
           v[k] = strtoull(f[k].c_str(), nullptr, 10);
-        for (int k = 0; k < 13; ++k)
+        for (int k = 0; k < 14; ++k)
           tot[k] += v[k];
         perB += fmt("%s\"%d\": {\"dump_edges\": %" PRIu64 ", \"crash_runs\": %" PRIu64
                     ", \"failed_dumps\": %" PRIu64 "}",
@@ -1090,6 +1222,7 @@ int main(int argc, char **argv) {
   R.set("rebuild_determinism_checks", (double)tot[9]);
   R.set("histories", (double)tot[10]);
   R.set("reader_checks", (double)tot[12]);
+  R.set("recovery_dumps", (double)tot[13]);
   R.set_json("per_backup_count", perB);
   {
     Bounds b = bounds_for(A, 8);
@@ -1097,8 +1230,9 @@ int main(int argc, char **argv) {
     for (int bb : Bs)
       bl += fmt("%s%d", bl.empty() ? "" : ",", bb);
     R.set_str("bound", fmt("B in {%s}; D^a a<=%d; then R D^b b<=min-rule(%d for B=8); then R D^c c<=%d; "
-                           "crash at every event of every dump + torn writes; recovery dump after every crash",
-                           bl.c_str(), b.A, b.Bb, b.Cc));
+                           "crash at every event of every dump + torn writes; after every crash a new manager "
+                           "takes %d (quick) / max(3,B+2) (thorough) dumps, rotation checked after each",
+                           bl.c_str(), b.A, b.Bb, b.Cc, 3));
   }
   remove_fast_tmpdir(tmp);
   return R.finish(A);
